@@ -43,7 +43,10 @@ vars == <<d, phase, partial, chars, src, pc, st, off, ctx, tstart, tend, callSta
 D == Defs[d]
 G == D.g
 N == Len(src)
-Sel == {i \in 1..Len(Defs) : Defs[i].accepted /\ Defs[i].hasGraph /\ Defs[i].refsOk /\ Len(Defs[i].chars) > 0}
+(* definitions with a pattern that matches the empty string must not have been accepted at all (C03 reports  *)
+(* them from the capture metadata); they are excluded here, the reference lexer makes no progress on them      *)
+Sel == {i \in 1..Len(Defs) : Defs[i].accepted /\ Defs[i].hasGraph /\ Defs[i].refsOk /\ Len(Defs[i].chars) > 0
+                             /\ \A k \in 1..Defs[i].nL : ~Defs[i].ref[k].nullable}
 
 HasSelf(s) == \E x \in 1..D.nB : G.edge[s][x] = s
 InSelf(s, o) == G.edge[s][src[o + 1]] = s
